@@ -581,7 +581,7 @@ func uRun(t *testing.T, sc *uScript, out *vfWriter, scribble, quiet bool) []vfM 
 		}
 		ev := vfM{"a": st.A, "s": st.S, "id": st.ID, "w": st.W, "fail": st.Fail, "kind": st.Kind, "n": 0, "err": 0,
 			"same": true, "blocked": false, "panic": "", "skipped": false, "wire": []vfM{}, "pkt": vfM{}, "nums": numsOrEmpty,
-			"tw": st.Tw, "probes": []vfM{}, "errs": []int{}, "leaked": 0, "stack": ""}
+			"tw": st.Tw, "probes": []vfM{}, "errs": []int{}, "leaked": 0, "stack": "", "raw": st.Raw != nil, "len": 0}
 		var blocked bool
 		var pan string
 		switch st.A {
